@@ -56,4 +56,24 @@ var mutantTable = []Mutant{
 		Old: "payloadLen := uint32(len(m.Payload))", New: "payloadLen := uint32(len(m.Payload) + 1)"},
 	{Name: "mbox-msgdata-little-endian-read", Prop: "C19", Rule: "CODEC", File: "mailbox/interface.go",
 		Old: "payloadLen := byteOrder.Uint32(lenBytes)", New: "payloadLen := binary.LittleEndian.Uint32(lenBytes)"},
+
+	// ---- C15: stream contract ----
+	{Name: "mbox-grpcread-returns-msglen", Prop: "C15", Rule: "RDC-1", File: "mailbox/grpc_noise_conn.go",
+		Old: "\tn = copy(b, chunk)\n\tc.nextMsg = c.nextMsg[n:]\n\n\treturn n, nil", New: "\tn = copy(b, chunk)\n\tc.nextMsg = c.nextMsg[n:]\n\n\treturn len(chunk), nil"},
+	{Name: "mbox-grpcread-drops-remainder", Prop: "C15", Rule: "RDC-2", File: "mailbox/grpc_noise_conn.go",
+		Old: "\tc.nextMsg = c.nextMsg[n:]\n", New: "\tc.nextMsg = c.nextMsg[len(chunk):]\n"},
+	{Name: "mbox-grpcread-refill-nonempty", Prop: "C15", Rule: "RDC-2", File: "mailbox/grpc_noise_conn.go",
+		Old: "\tif len(c.nextMsg) == 0 {\n\t\trequestBytes, err", New: "\tif len(c.nextMsg) <= 1 {\n\t\trequestBytes, err"},
+	{Name: "mbox-tcpread-returns-len", Prop: "C15", Rule: "RDC-1", File: "mailbox/tcp_noise_conn.go",
+		Old: "\treturn c.readBuf.Read(b)\n", New: "\t_, err = c.readBuf.Read(b)\n\treturn c.readBuf.Len() + len(b), err\n"},
+	{Name: "mbox-connkit-write-partial", Prop: "C15", Rule: "RDC-3", File: "mailbox/interface.go",
+		Old: "\tdata := NewMsgData(ProtocolVersion, b)\n\tif err := k.impl.SendControlMsg(data); err != nil {", New: "\tdata := NewMsgData(ProtocolVersion, b[:len(b)/2])\n\tif err := k.impl.SendControlMsg(data); err != nil {"},
+	{Name: "mbox-writemessage-no-maxlen", Prop: "C15,C16", Rule: "TRUNC", File: "mailbox/noise.go",
+		Old: "\tif len(p) > math.MaxUint16 {\n\t\treturn ErrMaxMessageLengthExceeded\n\t}\n", New: ""},
+	{Name: "mbox-tcpwrite-count-after-error", Prop: "C15", Rule: "RDC-3", File: "mailbox/tcp_noise_conn.go",
+		Old: "\t\tn, err := c.noise.Flush(c.conn)\n\t\tbytesWritten += n\n\t\tif err != nil {\n\t\t\treturn bytesWritten, err\n\t\t}", New: "\t\tn, err := c.noise.Flush(c.conn)\n\t\tif err != nil {\n\t\t\treturn bytesWritten, err\n\t\t}\n\t\tbytesWritten += n"},
+	{Name: "mbox-tcpwrite-chunk-skips", Prop: "C15", Rule: "RDC-3", File: "mailbox/tcp_noise_conn.go",
+		Old: "chunk := b[bytesWritten : bytesWritten+chunkSize]", New: "chunk := b[bytesWritten+1 : bytesWritten+chunkSize]"},
+	{Name: "mbox-connkit-read-partial-buffer", Prop: "C15", Rule: "RDC-2", File: "mailbox/interface.go",
+		Old: "k.recvBuffer.Write(data.Payload)", New: "k.recvBuffer.Write(data.Payload[:len(data.Payload)/2])"},
 }
